@@ -106,6 +106,24 @@ Example content_encoding_is_case_sensitive :
   server_decodes (dict_get n_content_encoding h) (wire_body h 7%N) = None.
 Proof. split; reflexivity. Qed.
 
+(* the same, judged by the label the server itself RECEIVES: with the entry spelled
+   "Content-Encoding" once and in no other way, among any number of other headers, through any
+   transport class, with or without credentials *)
+Theorem body_fidelity_on_the_wire : forall P kind c pre post v msg,
+  no_ci l_content_encoding pre = true -> no_ci l_content_encoding post = true ->
+  label_plain (Some v) = true ->
+  let h1 := add_credentials P kind c (pre ++ (n_content_encoding, v) :: post) in
+  server_decodes (dict_get l_content_encoding (u2_headers h1)) (wire_body h1 msg) = Some msg.
+Proof. exact body_fidelity_on_the_wire_l. Qed.
+Print Assumptions body_fidelity_on_the_wire.
+
+Theorem body_unlabelled_on_the_wire : forall P kind c h msg,
+  no_ci l_content_encoding h = true ->
+  let h1 := add_credentials P kind c h in
+  dict_get l_content_encoding (u2_headers h1) = None /\ wire_body h1 msg = WRaw msg.
+Proof. exact body_unlabelled_on_the_wire_l. Qed.
+Print Assumptions body_unlabelled_on_the_wire.
+
 (* Content-Type and SOAPAction arrive as _SoapClient set them unless the caller names them *)
 Theorem soap_defaults_delivered : forall action opts,
   (no_ci l_content_type opts = true ->
@@ -123,6 +141,15 @@ Theorem caller_header_delivered : forall action pre post k1 v1,
   dict_get (lower k1) (u2_headers (soap_headers impl_params action (pre ++ (k1, v1) :: post))) = Some v1.
 Proof. exact caller_header_impl_l. Qed.
 Print Assumptions caller_header_delivered.
+
+(* for ANY caller map (spellings colliding or not): whatever the server finds under a name is
+   a value the caller gave for that name, or the default of Content-Type / SOAPAction *)
+Theorem header_values_from_caller : forall action opts k v,
+  dict_get k (u2_headers (soap_headers impl_params action opts)) = Some v ->
+  (exists k', In (k', v) opts /\ str_eqb k (lower k') = true) \/
+  (k = l_content_type /\ v = v_text_xml_utf8) \/ (k = l_soapaction /\ v = action).
+Proof. exact header_values_from_caller_impl_l. Qed.
+Print Assumptions header_values_from_caller.
 
 Theorem request_header_delivered : forall P kind c pre post k1 v1,
   no_ci (lower k1) pre = true -> no_ci (lower k1) post = true ->
